@@ -1,5 +1,5 @@
 //! C28 — trace and composition LDEs and row commitments match their definitions.
-//! (The thread-count clause is decided by the C06 differential build, vdet family 'matrix'.)
+//! (The thread-count clause is decided by the serial/concurrent differential stage of this check (vdet family 'matrix'; evidence key thread_differential).)
 
 use vcore::*;
 use vfield::{gen_elem, Mix, Spec as FSpec, C, Q};
